@@ -18,51 +18,58 @@
  * quantifier over element types. */
 #ifndef ELEM_LIFETIME_H
 #define ELEM_LIFETIME_H
+/* Ghost-index form of the protocol (DESIGN 3.3): without `forall`, a loop invariant can state the lifetime state of
+ * a block only at an arbitrary ghost index.  A unit may therefore define ELEM_TRACKED(q) as "q is one of the
+ * arbitrarily chosen tracked slots"; the protocol is then asserted for those slots only (arbitrary slot => every slot),
+ * while the state updates stay unconditional.  Default: every slot is tracked. */
+#ifndef ELEM_TRACKED
+#define ELEM_TRACKED(q) 1
+#endif
 enum { ELEM_RAW = 0, ELEM_LIVE = 1, ELEM_MOVED = 2 };
 typedef struct ELEM { int v; unsigned char g_state; } ELEM;
 
 static inline void ELEM_construct_default(ELEM *p)
 {
-    __CPROVER_assert(p->g_state == ELEM_RAW, "lifetime: construct over an element that is still alive");
+    __CPROVER_assert(!ELEM_TRACKED(p) || p->g_state == ELEM_RAW, "lifetime: construct over an element that is still alive");
     p->v = 0; p->g_state = ELEM_LIVE;
 }
 static inline void ELEM_construct_value(ELEM *p, int v)
 {
-    __CPROVER_assert(p->g_state == ELEM_RAW, "lifetime: construct over an element that is still alive");
+    __CPROVER_assert(!ELEM_TRACKED(p) || p->g_state == ELEM_RAW, "lifetime: construct over an element that is still alive");
     p->v = v; p->g_state = ELEM_LIVE;
 }
 static inline void ELEM_copy_construct(ELEM *p, const ELEM *src)
 {
-    __CPROVER_assert(p->g_state == ELEM_RAW, "lifetime: copy-construct over an element that is still alive");
-    __CPROVER_assert(src->g_state == ELEM_LIVE, "lifetime: copy-construct from an unconstructed / destroyed / moved-from element");
+    __CPROVER_assert(!ELEM_TRACKED(p) || p->g_state == ELEM_RAW, "lifetime: copy-construct over an element that is still alive");
+    __CPROVER_assert(!ELEM_TRACKED(src) || src->g_state == ELEM_LIVE, "lifetime: copy-construct from an unconstructed / destroyed / moved-from element");
     p->v = src->v; p->g_state = ELEM_LIVE;
 }
 static inline void ELEM_move_construct(ELEM *p, ELEM *src)
 {
-    __CPROVER_assert(p->g_state == ELEM_RAW, "lifetime: move-construct over an element that is still alive");
-    __CPROVER_assert(src->g_state == ELEM_LIVE, "lifetime: move-construct from an unconstructed / destroyed / moved-from element");
+    __CPROVER_assert(!ELEM_TRACKED(p) || p->g_state == ELEM_RAW, "lifetime: move-construct over an element that is still alive");
+    __CPROVER_assert(!ELEM_TRACKED(src) || src->g_state == ELEM_LIVE, "lifetime: move-construct from an unconstructed / destroyed / moved-from element");
     p->v = src->v; p->g_state = ELEM_LIVE; src->g_state = ELEM_MOVED;
 }
 static inline void ELEM_copy_assign(ELEM *p, const ELEM *src)
 {
-    __CPROVER_assert(p->g_state == ELEM_LIVE || p->g_state == ELEM_MOVED, "lifetime: assignment to an unconstructed or destroyed element");
-    __CPROVER_assert(src->g_state == ELEM_LIVE, "lifetime: assignment from an unconstructed / destroyed / moved-from element");
+    __CPROVER_assert(!ELEM_TRACKED(p) || p->g_state == ELEM_LIVE || p->g_state == ELEM_MOVED, "lifetime: assignment to an unconstructed or destroyed element");
+    __CPROVER_assert(!ELEM_TRACKED(src) || src->g_state == ELEM_LIVE, "lifetime: assignment from an unconstructed / destroyed / moved-from element");
     p->v = src->v; p->g_state = ELEM_LIVE;
 }
 static inline void ELEM_move_assign(ELEM *p, ELEM *src)
 {
-    __CPROVER_assert(p->g_state == ELEM_LIVE || p->g_state == ELEM_MOVED, "lifetime: move-assignment to an unconstructed or destroyed element");
-    __CPROVER_assert(src->g_state == ELEM_LIVE, "lifetime: move-assignment from an unconstructed / destroyed / moved-from element");
+    __CPROVER_assert(!ELEM_TRACKED(p) || p->g_state == ELEM_LIVE || p->g_state == ELEM_MOVED, "lifetime: move-assignment to an unconstructed or destroyed element");
+    __CPROVER_assert(!ELEM_TRACKED(src) || src->g_state == ELEM_LIVE, "lifetime: move-assignment from an unconstructed / destroyed / moved-from element");
     if (p != src) { p->v = src->v; p->g_state = ELEM_LIVE; src->g_state = ELEM_MOVED; }
 }
 static inline void ELEM_destroy(ELEM *p)
 {
-    __CPROVER_assert(p->g_state == ELEM_LIVE || p->g_state == ELEM_MOVED, "lifetime: destructor run on an unconstructed or already destroyed element");
+    __CPROVER_assert(!ELEM_TRACKED(p) || p->g_state == ELEM_LIVE || p->g_state == ELEM_MOVED, "lifetime: destructor run on an unconstructed or already destroyed element");
     p->g_state = ELEM_RAW;
 }
 static inline int ELEM_value(const ELEM *p)
 {
-    __CPROVER_assert(p->g_state == ELEM_LIVE, "lifetime: read of an unconstructed / destroyed / moved-from element");
+    __CPROVER_assert(!ELEM_TRACKED(p) || p->g_state == ELEM_LIVE, "lifetime: read of an unconstructed / destroyed / moved-from element");
     return p->v;
 }
 #endif
